@@ -1,0 +1,30 @@
+//go:build verif
+
+package block
+
+import "context"
+
+// VerifDAIncluderOnce executes one pass of the body of DAIncluderLoop (what the loop does after it
+// receives a signal), synchronously, for the external verification harness (/verif). The unmodified
+// goroutine is exercised as well (stream C07 op `inclreal`, C13).
+func (m *Manager) VerifDAIncluderOnce(ctx context.Context) error {
+	currentDAIncluded := m.GetDAIncludedHeight()
+	for {
+		nextHeight := currentDAIncluded + 1
+		daIncluded, err := m.IsDAIncluded(ctx, nextHeight)
+		if err != nil {
+			break
+		}
+		if !daIncluded {
+			break
+		}
+		if err := m.SetRollkitHeightToDAHeight(ctx, nextHeight); err != nil {
+			return err
+		}
+		if err := m.incrementDAIncludedHeight(ctx); err != nil {
+			return err
+		}
+		currentDAIncluded = nextHeight
+	}
+	return nil
+}
